@@ -1345,3 +1345,138 @@ def r_c14_all(acc, case):
         _c14x_case(acc, case)
     elif _r_c14_base:
         _r_c14_base(acc, case)
+
+
+# =============================================================================================== C05 (additional scenario)
+def _c05x_case(acc, case):
+    """the payload root directory X itself contains an entry named X (file or sub-directory)"""
+    from torrentfile.recheck import Checker
+    with tempdir() as d:
+        name = "album"
+        inner = content(5, "inner", 16384 + 7) if case["inner"] == "file" else {"t.bin": content(5, "t", 16384 + 7), "e": b""}
+        tree = {name: inner, "other.bin": content(5, "o", 3 * 16384)}
+        mf, payload = make_metafile(d, name, tree, case["version"])
+        cpath = payload if case["via"] == "root" else d
+        try:
+            with quiet():
+                r = Checker(mf, cpath).results()
+        except BaseException as e:      # noqa: BLE001
+            acc.fail(f"C05x:payload-contains-entry-named-like-itself:{case['inner']}:raised", case, f"{type(e).__name__}: {e}", 100)
+            return
+        if r != 100:
+            acc.fail(f"C05x:payload-contains-entry-named-like-itself:{case['inner']}:via-{case['via']}", case, f"recheck reports {r}", 100)
+
+
+def _c05x_cases():
+    return [{"prop": "C05", "kind": "self-named-entry", "version": v, "inner": i, "via": via}
+            for v in (1, 2, 3) for i in ("file", "dir") for via in ("root", "parent")]
+
+
+_h_c05_base = HARNESS.get("C05")
+_r_c05_base = REPLAY.get("C05")
+
+
+@harness("C05")
+def h_c05_all(tier, seed, hints):
+    res = _h_c05_base(tier, seed, hints) if _h_c05_base else Acc("C05", "", "").result()
+    acc = Acc("C05", "", "")
+    for case in _c05x_cases():
+        _c05x_case(acc, case)
+        acc.case(json.dumps(case, sort_keys=True), case)
+    extra = acc.result()
+    res["cases"] += extra["cases"]
+    res["distinct_nontrivial"] += extra["distinct_nontrivial"]
+    res["failures"] += extra["failures"]
+    res["rule"] = (res.get("rule") or "") + "; plus payload roots that contain an entry carrying the payload's own name"
+    return res
+
+
+@replayer("C05")
+def r_c05_all(acc, case):
+    if case.get("kind") == "self-named-entry":
+        _c05x_case(acc, case)
+    elif _r_c05_base:
+        _r_c05_base(acc, case)
+
+
+# =============================================================================================== C19 (additional scenario)
+def _c19x_case(acc, case):
+    """bare-root elements: name (or an inner path element) is exactly '/', '//' ... and the remaining elements spell an absolute
+    location outside the destination, component by component"""
+    from torrentfile.rebuild import Assembler
+    with tempdir() as d:
+        sandbox = os.path.join(d, "sandbox")
+        dest = os.path.join(sandbox, "deep", "dest")
+        search = os.path.join(sandbox, "search")
+        outside = os.path.join(sandbox, "outside", "victimdir")
+        for x in (dest, search, os.path.dirname(outside)):
+            os.makedirs(x)
+        data = content(9, "payload", 16384 + 100)
+        other = content(9, "other", 5000)
+        with open(os.path.join(search, "payload.bin"), "wb") as fh:
+            fh.write(data)
+        with open(os.path.join(search, "other.bin"), "wb") as fh:
+            fh.write(other)
+        comps = [c for c in outside.split(os.sep) if c]
+        root = case["root"]
+        version = case["version"]
+        if case["where"] == "name":
+            name, prefix = root, comps
+        else:
+            name, prefix = "t", [root] + comps
+        tree = {}
+        node = tree
+        for c in prefix:
+            node = node.setdefault(c, {})
+        node["payload.bin"] = data
+        tree["other.bin"] = other
+        meta = ref.ref_metafile(name, tree, 16384, version)
+        mf = os.path.join(sandbox, "hostile.torrent")
+        with open(mf, "wb") as fh:
+            fh.write(ref.bencode(meta))
+        before = snapshot(sandbox)
+        note = "returned"
+        try:
+            with quiet():
+                Assembler([mf], [search], dest).assemble_torrents()
+        except BaseException as e:      # noqa: BLE001
+            note = f"raised {type(e).__name__}"
+        after = snapshot(sandbox)
+        destrel = os.path.relpath(dest, sandbox)
+        added, removed, changed = snap_diff(before, after)
+        bad = [x for x in added + removed + changed if destrel not in x]
+        if bad:
+            acc.fail(f"C19x:v{version}:{case['where']}:bare-root", case, f"outside the destination: {bad[:6]} ({note})",
+                     "nothing outside the destination is created, overwritten or deleted")
+
+
+def _c19x_cases():
+    return [{"prop": "C19", "kind": "bare-root", "version": v, "where": w, "root": r}
+            for v in (1, 2, 3) for w in ("name", "element") for r in ("/", "//", "///")]
+
+
+_h_c19_base = HARNESS.get("C19")
+_r_c19_base = REPLAY.get("C19")
+
+
+@harness("C19")
+def h_c19_all(tier, seed, hints):
+    res = _h_c19_base(tier, seed, hints) if _h_c19_base else Acc("C19", "", "").result()
+    acc = Acc("C19", "", "")
+    for case in _c19x_cases():
+        _c19x_case(acc, case)
+        acc.case(json.dumps(case, sort_keys=True), case)
+    extra = acc.result()
+    res["cases"] += extra["cases"]
+    res["distinct_nontrivial"] += extra["distinct_nontrivial"]
+    res["failures"] += extra["failures"]
+    res["rule"] = (res.get("rule") or "") + "; plus bare-root elements ('/', '//') followed by the components of an absolute outside location"
+    return res
+
+
+@replayer("C19")
+def r_c19_all(acc, case):
+    if case.get("kind") == "bare-root":
+        _c19x_case(acc, case)
+    elif _r_c19_base:
+        _r_c19_base(acc, case)
